@@ -1374,6 +1374,7 @@ func c10Dur(F int, gops []int, audio string, nseg int) int64 {
 }
 
 func runC10(c *kit.Ctx) {
+	c10TwinStreams(c)
 	l := &c10Lister{c: c}
 	paths := []string{"sync", "muxer"}
 	modes := []string{"memory", "disk"}
